@@ -235,31 +235,38 @@ def indexing(S, shape, rep, alphabet):
                 part = d[idx if len(idx) > 1 else idx[0]]
                 gm, gc = part.mean, part.covariance_matrix
             except Exception as ex:
-                S.check_concrete(False, lab + " raises", repr(ex)[:200])
+                paired_ = sum(1 for i in e if isinstance(i, list)) >= 2 and isinstance(e[-1], list) and len(e) == len(shape)
+                S.check_concrete(False, ("PAIRED-INDEX-TENSORS " if paired_ else "") + lab + " raises", repr(ex)[:200])
                 continue
             ntested += 1
             if not S.check_concrete(tuple(gm.shape) == tuple(want_t.shape), lab + " mean shape", "%s vs %s" % (tuple(gm.shape), tuple(want_t.shape))):
                 continue
             ids_np = ids.numpy()
             S.prove_eq(gm, Ms.reshape(-1)[ids_np], lab + ".mean")
-            # marginal covariance: each row of ids (over leading dims) is a vector of components of ONE batch element
+            # marginal covariance of the selected components: each vector along the last result dim may draw its
+            # components from one or from several batch elements; batch elements are independent, so
+            #   cov[p, q] = C_b[i_p, i_q] if b_p == b_q else 0
+            ntens = sum(1 for i in e if isinstance(i, list))
+            paired = ntens >= 2 and isinstance(e[-1], list) and len(e) == len(shape)
+            plab = ("PAIRED-INDEX-TENSORS " if paired else "") + lab
             flat = ids_np.reshape(-1, ids_np.shape[-1])
-            gcs = as_sym_arr(SH.get(gc))
+            try:
+                gcs = as_sym_arr(SH.get(gc))
+            except Exception as ex:
+                S.check_concrete(False, plab + " covariance cannot be read", repr(ex)[:200])
+                continue
             if gcs.shape[-1] != ids_np.shape[-1] or gcs.shape[-2] != ids_np.shape[-1]:
-                S.check_concrete(False, lab + " cov shape", "%s for mean shape %s" % (tuple(gc.shape), tuple(gm.shape)))
+                S.check_concrete(False, plab + " cov shape", "%s for mean shape %s" % (tuple(gc.shape), tuple(gm.shape)))
                 continue
             gcf = np.broadcast_to(gcs, ids_np.shape[:-1] + gcs.shape[-2:]).reshape(-1, gcs.shape[-2], gcs.shape[-1])
-            okrow = True
+            Call = Cs.reshape(-1, N, N)
             for k in range(flat.shape[0]):
-                b = np.unique(flat[k] // N)
-                if len(b) != 1:
-                    okrow = False
-                    break
-                Cb = Cs.reshape(-1, N, N)[int(b[0])]
-                loc = flat[k] % N
-                S.prove_eq(gcf[k], Cb[np.ix_(loc, loc)], lab + ".cov[%d]" % k)
-            if not okrow:
-                S.notes.append("skipped covariance of %s: last result dim mixes batch elements" % lab)
+                want = np.empty((flat.shape[1], flat.shape[1]), dtype=object)
+                for p_, gp in enumerate(flat[k]):
+                    for q_, gq in enumerate(flat[k]):
+                        bp, bq = int(gp) // N, int(gq) // N
+                        want[p_, q_] = Call[bp][int(gp) % N, int(gq) % N] if bp == bq else Sym.const(0.0)
+                S.prove_eq(gcf[k], want, plab + ".cov[%d]" % k)
     S.notes.append("index expressions tested: %d" % ntested)
 
 
